@@ -11,6 +11,8 @@
     * load_normalised — Modules.load with the repaired except clauses ends ok / in Errors.Error / passes non-Exceptions through
     * loop            — an Interactive step keeps the loop alive for every outcome in {ok} ∪ Errors.Error (given the render succeeds)
     * render_total    — message and quotation builders are total exactly under the stated guards
+    * session         — the request boundary (bin/io.py tty + the quit test of Interactive.run, both generated): the quit test is total on
+                        every request incl. the empty one, and a whole keyboard transcript ends at the prompt or through the quit command
 -/
 import Tranp.Lemmas.Errors
 import Tranp.Lemmas.ErrorsRun
@@ -723,5 +725,165 @@ example :
     (match writerFlush (.ok ()) (.error (Exc.ofBuiltin .FileNotFoundError .other)) (.ok ()) with | .error y => y.cls.isA (.bi .FileNotFoundError) | _ => false) = true := by
   decide
 
+/-! ### The request boundary of the interactive mode -/
+
+/-- The quit test of `Interactive.run` (generated from the source) never raises, for EVERY request `tty` could hand over — the empty
+    request included — and it is true for the quit command `tty` returns and for nothing else. -/
+theorem quit_test_total (lines : List Str) :
+    evalTest lines interactiveQuitTest = .ok (decide (lines = ttyQuitResult)) := by
+  match lines with
+  | [] => rfl
+  | [l] =>
+    simp only [interactiveQuitTest, evalTest, pyIndex, pyNorm, ttyQuitResult]
+    by_cases h : l = ['e', 'x', 'i', 't'] <;> simp [h]
+  | a :: b :: t =>
+    simp [interactiveQuitTest, evalTest, ttyQuitResult]
+
+
+/-- non-vacuity: the empty request is an ordinary request; `exit` alone quits; `exit` followed by more text does not -/
+example : evalTest [] interactiveQuitTest = .ok false ∧ evalTest [['e', 'x', 'i', 't']] interactiveQuitTest = .ok true ∧
+    evalTest [['e', 'x', 'i', 't'], ['a']] interactiveQuitTest = .ok false := ⟨rfl, rfl, rfl⟩
+
+/-- One pass of the loop for a request: the quit command leaves through `break`, every other request — the empty one too — is served
+    exactly as the abstract `step` says (so `loop`, `loop_history`, `turn_survives` speak about every request). -/
+theorem request_step (lines : List Str) (result render : Except Exc Unit) :
+    stepRequest interactiveQuitTest lines result render = if lines = ttyQuitResult then .quit else step (.code result render) := by
+  unfold stepRequest
+  rw [quit_test_total]
+  by_cases h : lines = ttyQuitResult <;> simp [h]
+
+/-- Every request other than the quit command whose outcome is ok or a member of the Errors.Error hierarchy (and whose error can be
+    printed) returns to the prompt. -/
+theorem request_survives (lines : List Str) (hq : lines ≠ ttyQuitResult) (result : Except Exc Unit)
+    (h : match result with | .ok _ => True | .error x => x.inHierarchy = true) :
+    stepRequest interactiveQuitTest lines result (.ok ()) = .running := by
+  rw [request_step, if_neg hq]
+  exact loop result h
+
+example : stepRequest interactiveQuitTest [] (.error (Exc.ofErr .Syntax .other)) (.ok ()) = .running := rfl
+
+/-- NEGATIVE companion (the shape of seeded/C07 round 6 #2): without the length guard the test `lines[0] == 'exit'` raises IndexError
+    on the empty request, outside the inner `try`, and the session dies whatever the outcome of the request would have been. -/
+theorem quit_test_unguarded_counterexample (result render : Except Exc Unit) :
+    stepRequest (.itemEq 0 ttyQuitLine) [] result render = .died indexError := by
+  rfl
+
+/-- What `tty` hands over, for every keyboard transcript: no line of a request is empty, the quit line occurs in a request only as the
+    whole quit command, and the call consumed at least one key (so a session of n keys makes at most n calls). -/
+theorem tty_request_shape (keys req rest : List Str) (h : tty keys = some (req, rest)) :
+    (∀ l ∈ req, l ≠ []) ∧ (req = ttyQuitResult ∨ ttyQuitLine ∉ req) ∧ rest.length < keys.length := by
+  have gen : ∀ (keys acc req rest : List Str), ttyLoop ttyQuitLine ttyQuitResult keys acc = some (req, rest) →
+      (∀ l ∈ acc, l ≠ []) → ttyQuitLine ∉ acc →
+      (∀ l ∈ req, l ≠ []) ∧ (req = ttyQuitResult ∨ ttyQuitLine ∉ req) ∧ rest.length < keys.length := by
+    intro keys
+    induction keys with
+    | nil => intro acc req rest h; simp [ttyLoop] at h
+    | cons l ks ih =>
+      intro acc req rest h hacc hq
+      unfold ttyLoop at h
+      split at h
+      · cases h; exact ⟨hacc, Or.inr hq, by simp⟩
+      · split at h
+        · cases h
+          refine ⟨?_, Or.inl rfl, by simp⟩
+          decide
+        · rename_i hne hnq
+          have := ih (acc ++ [l]) req rest h
+            (by intro x hx; rcases List.mem_append.mp hx with hx | hx
+                · exact hacc x hx
+                · simp at hx; subst hx; intro h0; subst h0; simp at hne)
+            (by intro hx; rcases List.mem_append.mp hx with hx | hx
+                · exact hq hx
+                · simp at hx; exact hnq hx.symm)
+          exact ⟨this.1, this.2.1, by have := this.2.2; simp; omega⟩
+  exact gen keys [] req rest h (by simp) (by simp)
+
+example : tty [['a'], [], ['b']] = some ([['a']], [['b']]) ∧ tty [['a'], ['e', 'x', 'i', 't'], ['b']] = some ([['e', 'x', 'i', 't']], [['b']]) ∧
+    tty [[], ['b']] = some ([], [['b']]) ∧ tty [['a']] = none := by decide
+
+
+/-- the keys `tty` leaves are keys of the transcript, and it hands over the quit command only when the quit line was typed -/
+theorem tty_quit_typed (keys req rest : List Str) (h : tty keys = some (req, rest)) :
+    (∀ x ∈ rest, x ∈ keys) ∧ (req = ttyQuitResult → ttyQuitLine ∈ keys) := by
+  have gen : ∀ (keys acc req rest : List Str), ttyLoop ttyQuitLine ttyQuitResult keys acc = some (req, rest) → ttyQuitLine ∉ acc →
+      (∀ x ∈ rest, x ∈ keys) ∧ (ttyQuitLine ∈ req → ttyQuitLine ∈ keys) := by
+    intro keys
+    induction keys with
+    | nil => intro acc req rest h; simp [ttyLoop] at h
+    | cons l ks ih =>
+      intro acc req rest h hq
+      unfold ttyLoop at h
+      split at h
+      · cases h; exact ⟨fun x hx => List.mem_cons_of_mem _ hx, fun hx => absurd hx hq⟩
+      · split at h
+        · rename_i hl
+          cases h
+          exact ⟨fun x hx => List.mem_cons_of_mem _ hx, fun _ => by rw [hl]; exact List.mem_cons_self⟩
+        · rename_i hne hnq
+          have := ih (acc ++ [l]) req rest h
+            (by intro hx; rcases List.mem_append.mp hx with hx | hx
+                · exact hq hx
+                · simp at hx; exact hnq hx.symm)
+          exact ⟨fun x hx => List.mem_cons_of_mem _ (this.1 x hx), fun hx => List.mem_cons_of_mem _ (this.2 hx)⟩
+  have g := gen keys [] req rest h (by simp)
+  exact ⟨g.1, fun hr => g.2 (by rw [hr]; decide)⟩
+
+/-- THE SESSION: for every keyboard transcript — blank lines, repeated Enter, the quit line anywhere — and every way of serving
+    requests whose outcome is ok or a member of the Errors.Error hierarchy with a printable error, `Interactive.run` is still at the
+    prompt when the keys are used up, or it has left through the quit command, which happens only when the quit line was typed. Nothing
+    else ends a session. -/
+theorem session_survives (oc : List Str → Except Exc Unit × Except Exc Unit)
+    (hoc : ∀ req, (match (oc req).1 with | .ok _ => True | .error x => x.inHierarchy = true) ∧ (oc req).2 = .ok ())
+    (keys : List Str) :
+    (runKeys interactiveQuitTest oc keys).1 = .running ∨ ((runKeys interactiveQuitTest oc keys).1 = .quit ∧ ttyQuitLine ∈ keys) := by
+  have gen : ∀ (f : Nat) (keys : List Str),
+      (runKeysFuel interactiveQuitTest oc f keys).1 = .running ∨ ((runKeysFuel interactiveQuitTest oc f keys).1 = .quit ∧ ttyQuitLine ∈ keys) := by
+    intro f
+    induction f with
+    | zero => intro keys; exact Or.inl rfl
+    | succ f ih =>
+      intro keys
+      unfold runKeysFuel
+      cases ht : tty keys with
+      | none => exact Or.inl rfl
+      | some p =>
+        obtain ⟨req, rest⟩ := p
+        have hs := tty_quit_typed keys req rest ht
+        simp only
+        rw [request_step]
+        by_cases hq : req = ttyQuitResult
+        · rw [if_pos hq]; exact Or.inr ⟨rfl, hs.2 hq⟩
+        · rw [if_neg hq]
+          have hr := hoc req
+          have hl : step (.code (oc req).1 (oc req).2) = .running := by rw [hr.2]; exact loop _ hr.1
+          rw [hl]
+          rcases ih rest with h | h
+          · exact Or.inl h
+          · exact Or.inr ⟨h.1, hs.1 _ h.2⟩
+  exact gen _ keys
+
+/-- the fuel of `runKeys` is never the reason a session stops: any two fuels above the number of keys give the same run -/
+theorem session_fuel_irrelevant (test : ReqTest) (oc : List Str → Except Exc Unit × Except Exc Unit) (f g : Nat) (keys : List Str)
+    (hf : keys.length < f) (hg : keys.length < g) : runKeysFuel test oc f keys = runKeysFuel test oc g keys := by
+  induction f generalizing g keys with
+  | zero => omega
+  | succ f ih =>
+    cases g with
+    | zero => omega
+    | succ g =>
+      unfold runKeysFuel
+      cases ht : tty keys with
+      | none => rfl
+      | some p =>
+        obtain ⟨req, rest⟩ := p
+        have hlt := (tty_request_shape keys req rest ht).2.2
+        simp only
+        rw [ih g rest (by omega) (by omega)]
+
+/-- non-vacuity: Enter, a failing request, Enter, Enter, a request, the quit line in the middle of the next request → 4 requests are
+    served (two of them empty), the 5th call of `tty` returns the quit command -/
+example : runKeys interactiveQuitTest (fun r => (if r = [['x']] then .error (Exc.ofErr .Syntax .other) else .ok (), .ok ()))
+    [[], ['x'], [], [], ['b'], [], ['c'], ['e', 'x', 'i', 't'], ['d']] = (.quit, 5) := by
+  rfl
 
 end Tranp.C07
